@@ -307,6 +307,100 @@ pub fn check_internal_huge(depth: u8, h: u64, delta: u8, part: &mut Part) -> Opt
     let k = ies.iter().zip(sorted.iter()).position(|(a, b)| a != b).unwrap_or(0);
     return Some(Viol { api: "internal_edge_sorted".into(), kind: "wrong-set".into(), case, expected: format!("element {} = {}", k, sorted.get(k).copied().unwrap_or(0)), actual: format!("{:?}", ies.get(k)) });
   }
+  drop(sorted);
+  drop(ies);
+  // the four side helpers (three forms), element by element after sorting
+  let side_of = |hh: u64, k: usize| -> Vec<u64> {
+    let mut v: Vec<u64> = (0..=m)
+      .map(|t| match k {
+        0 => descendant(depth, hh, delta, t, 0),
+        1 => descendant(depth, hh, delta, 0, t),
+        2 => descendant(depth, hh, delta, m, t),
+        _ => descendant(depth, hh, delta, t, m),
+      })
+      .collect();
+    v.sort_unstable();
+    v
+  };
+  for k in 0..4usize {
+    let exp = side_of(h, k);
+    for form in 0..3u8 {
+      let got = guarded(move || match form {
+        0 => nested::internal_edge_part(h, delta, &ordinal(k)).into_vec(),
+        1 => match k {
+          0 => nested::internal_edge_southeast(h, delta),
+          1 => nested::internal_edge_southwest(h, delta),
+          2 => nested::internal_edge_northeast(h, delta),
+          _ => nested::internal_edge_northwest(h, delta),
+        }
+        .into_vec(),
+        _ => {
+          let mut c: Vec<u64> = vec![];
+          nested::append_internal_edge_part(h, delta, &ordinal(k), &mut c);
+          c
+        }
+      });
+      part.validated += 1;
+      match got {
+        Ok(mut a) => {
+          a.sort_unstable();
+          if a != exp {
+            let pos = a.iter().zip(exp.iter()).position(|(x, y)| x != y).unwrap_or(a.len().min(exp.len()));
+            return Some(Viol { api: "internal_edge_part".into(), kind: "wrong-side".into(), case, expected: format!("{} side (form {}): {} cells, sorted element {} = {:?}", ORD[k], form, exp.len(), pos, exp.get(pos)), actual: format!("{} cells, sorted element {} = {:?}", a.len(), pos, a.get(pos)) });
+          }
+        }
+        Err(msg) => return Some(Viol { api: "internal_edge_part".into(), kind: "panic-in-domain".into(), case, expected: "a side".into(), actual: msg }),
+      }
+    }
+  }
+  // external edge of a cell whose 8 neighbours lie in its base cell: the facing sides of the 4
+  // side neighbours and the facing corner of the 4 corner neighbours
+  let (d0h, i, j) = decode(depth, h);
+  let n = nside(depth) as u32;
+  if depth > 0 && i >= 1 && j >= 1 && i + 1 < n && j + 1 < n {
+    let nb = |di: i32, dj: i32| encode(depth, d0h, (i as i32 + di) as u32, (j as i32 + dj) as u32);
+    let mut exp: Vec<u64> = vec![];
+    exp.extend(side_of(nb(0, -1), 3)); // SE neighbour: its NW side (j = m)
+    exp.extend(side_of(nb(-1, 0), 2)); // SW neighbour: its NE side (i = m)
+    exp.extend(side_of(nb(1, 0), 1)); // NE neighbour: its SW side (i = 0)
+    exp.extend(side_of(nb(0, 1), 0)); // NW neighbour: its SE side (j = 0)
+    exp.push(descendant(depth, nb(-1, -1), delta, m, m)); // S
+    exp.push(descendant(depth, nb(1, -1), delta, 0, m)); // E
+    exp.push(descendant(depth, nb(1, 1), delta, 0, 0)); // N
+    exp.push(descendant(depth, nb(-1, 1), delta, m, 0)); // W
+    exp.sort_unstable();
+    for form in 0..3u8 {
+      let got = guarded(move || match form {
+        0 => nested::external_edge_sorted(depth, h, delta).into_vec(),
+        1 => nested::external_edge(depth, h, delta).into_vec(),
+        _ => {
+          let s = nested::external_edge_struct(depth, h, delta);
+          let mut v: Vec<u64> = vec![];
+          for c in [Cardinal::S, Cardinal::E, Cardinal::N, Cardinal::W] {
+            v.extend(s.get_corner(&c));
+          }
+          for o in [Ordinal::SE, Ordinal::SW, Ordinal::NE, Ordinal::NW] {
+            v.extend(s.get_edge(&o).iter().copied());
+          }
+          v
+        }
+      });
+      part.validated += 1;
+      match got {
+        Ok(mut a) => {
+          if form == 0 && a.windows(2).any(|w| w[0] >= w[1]) {
+            return Some(Viol { api: "external_edge_sorted".into(), kind: "not-sorted".into(), case, expected: "strictly increasing".into(), actual: format!("{} cells", a.len()) });
+          }
+          a.sort_unstable();
+          if a != exp {
+            let pos = a.iter().zip(exp.iter()).position(|(x, y)| x != y).unwrap_or(a.len().min(exp.len()));
+            return Some(Viol { api: "external_edge".into(), kind: "wrong-set".into(), case, expected: format!("form {}: {} cells, sorted element {} = {:?}", form, exp.len(), pos, exp.get(pos)), actual: format!("{} cells, sorted element {} = {:?}", a.len(), pos, a.get(pos)) });
+          }
+        }
+        Err(msg) => return Some(Viol { api: "external_edge".into(), kind: "panic-in-domain".into(), case, expected: "the external edge".into(), actual: msg }),
+      }
+    }
+  }
   None
 }
 
@@ -509,7 +603,7 @@ pub fn run(ctx: &Ctx) -> i32 {
     part
   });
   check_direction_helpers(if quick { 3 } else { 6 }, &mut total);
-  // huge delta_depth (internal edge only): 8.4e6 .. 3.4e7 cells
+  // huge delta_depth (internal edge, the side helpers, the external edge of inner cells): 8.4e6 .. 3.4e7 cells
   {
     let items: Vec<(u8, u64, u8)> = if quick { vec![(3, 437, 21), (8, 500_001, 21)] } else { vec![(3, 437, 21), (8, 500_001, 21), (0, 7, 22), (5, 9000, 23), (6, 40_000, 19), (1, 30, 20)] };
     let huge = par_jobs(items.len(), |k| {
